@@ -141,12 +141,16 @@ func main() {
 		n := 0
 		for _, f := range files {
 			rel, _ := filepath.Rel(repo, f)
-			// not rewritten: the write-barrier stub; the assembler back end (its sync.Pool only
-			// recycles instruction objects inside one thread-local compilation - thousands of
-			// Get/Put per compile would drown the schedule space; it stays under the -race pass)
-			if rel == "internal/rt/gcwb.go" || rel == "internal/jit/backend.go" || rel == "internal/jit/assembler_amd64.go" || strings.HasPrefix(rel, "loader/vshim") {
+			// not rewritten: the write-barrier stub
+			if rel == "internal/rt/gcwb.go" || strings.HasPrefix(rel, "loader/vshim") {
 				continue
 			}
+			// the assembler back end recycles instruction objects through a sync.Pool thousands
+			// of times inside one thread-local compilation: a scheduling point per Get/Put would
+			// drown the schedule space, so its pool becomes a QuietPool (deterministic, no
+			// points) and the switches are the yields of hooks/yields.txt around assemble /
+			// resolve / release
+			quiet := rel == "internal/jit/backend.go" || rel == "internal/jit/assembler_amd64.go"
 			rf := f
 			if m, ok := mut[f]; ok {
 				rf = m
@@ -165,6 +169,9 @@ func main() {
 				s, ny = insertYields(f, s, ys)
 			}
 			s = reSync.ReplaceAllString(s, `${1}sync "`+shimPath+`"`)
+			if quiet {
+				s = strings.ReplaceAll(s, "sync.Pool", "sync.QuietPool")
+			}
 			s = reAtomic.ReplaceAllString(s, `${1}atomic "`+shimPath+`"`)
 			if ny > 0 {
 				// a dedicated import for the yields (never clashes, always used)
